@@ -495,14 +495,15 @@ pub fn generate(s: &mut Session, thorough: bool) -> bool {
         s.notes.insert(format!("argmin_never_won_{}", if wire { "wire" } else { "pad" }), missing.join(" ").into());
     }
 
-    // (iv) scaling by 2^k, k in -8..=8: amplitudes multiplied exactly, no index changes
+    // (iv) scaling by 2^k, k in -8..=8 and +-20, 30, 40, 60, 100 (no absolute threshold may hide in the
+    // chain; values stay far from overflow and from the subnormal range): amplitudes multiplied exactly, no index changes
     for _ in 0..4 * scale {
         for wire in [true, false] {
             let (resp, g) = if wire { (&wire_resp, WIRE_GRID) } else { (&pad_resp, PAD_GRID) };
             let len = pick_len(&mut rng);
             let sig = gen_signal(&mut rng, len, resp);
             let base = guarded(|| verif_ls_deconvolution(&sig, resp, g.0..=g.1, g.2..=g.3)).ok();
-            for k in -8i32..=8 {
+            for k in (-8i32..=8).chain([-100, -60, -40, -30, -20, 20, 30, 40, 60, 100]) {
                 let c = 2f64.powi(k);
                 let scaled: Vec<f64> = sig.iter().map(|x| x * c).collect();
                 let (imp, val) = if wire { impl_ls(&scaled, trunc(resp, len), g) } else { impl_pad(&scaled) };
@@ -531,7 +532,7 @@ pub fn generate(s: &mut Session, thorough: bool) -> bool {
         let range = if blen == 256 { (0, 256) } else { range };
         let base = guarded(|| verif_wire_range_deconvolution(&base_sig, range)).ok();
         let max_len = base_sig.iter().flatten().map(|v| v.len()).max().unwrap();
-        for k in [-8i32, -3, -1, 1, 2, 8] {
+        for k in [-100i32, -60, -40, -30, -20, -8, -3, -1, 1, 2, 8, 20, 30, 40, 60, 100] {
             let c = 2f64.powi(k);
             let mut sc = empty_wires();
             for w in 0..256 {
